@@ -102,6 +102,8 @@ type node struct {
 	errsAtPick int      // len(Errors()) when BeforeCommit/BeforeRollback reached the probe, -1 = not yet
 	waitBad    string   // what was still open when the commit/rollback triple started
 	mustFail   bool     // a shared descendant (or itself) failed: Close must roll back and report
+	probed     bool     // in the tree of scope 0, whose first listeners are the probes
+	kf1        string   // KF-C11-1: children that never signed on and were open when the triple started
 }
 
 // closeCall is one Close call in its goroutine; res is valid once ret is closed.
@@ -133,6 +135,7 @@ type H struct {
 	oracle bool
 	probe  map[int]bool // listener ids that are root probes
 	fails  []string
+	kf1    int // Close calls that returned while a child that never signed on was open (KF-C11-1)
 }
 
 func newH() *H { return &H{byScope: map[app.Scope]*node{}, probe: map[int]bool{}} }
@@ -348,6 +351,7 @@ func (h *H) addNode(n *node) {
 	h.mu.Lock()
 	n.id = len(h.nodes)
 	n.errsAtPick = -1
+	n.probed = (n.parent == nil && n.id == 0) || (n.parent != nil && n.parent.probed)
 	h.nodes = append(h.nodes, n)
 	h.byScope[n.scp] = n
 	if n.parent != nil {
@@ -636,11 +640,12 @@ func (h *H) Exec(line string) string {
 		} else if n.outstanding == 0 {
 			res = "undisciplined"
 		} else {
+			// the books are updated first: DoneTask may release a Close goroutine whose probe reads them
+			n.wgm--
+			n.outstanding--
 			if pan, _ := hx.Guard(func() { n.scp.DoneTask() }); pan {
 				res = "panic"
 			} else {
-				n.wgm--
-				n.outstanding--
 				res = "ok"
 			}
 		}
